@@ -721,7 +721,7 @@ func (n *Net) ByzVote(idx int, typ byte, h uint64, round int, id types.BlockID, 
 // ByzProposal builds a proposal (signed by Byzantine validator idx) and the parts of `block`.
 func (n *Net) ByzProposal(idx int, h uint64, round int, block *types.Block, polRound int, polID types.BlockID) []*Msg {
 	node := n.Nodes[idx]
-	parts := block.MakePartSet(n.Cfg.PartSize)
+	parts := block.MakePartSet(n.byzPartSize(block))
 	if n.Cfg.Trace {
 		var pl []*types.Part
 		for i := 0; i < parts.Total(); i++ {
@@ -740,6 +740,40 @@ func (n *Net) ByzProposal(idx int, h uint64, round int, block *types.Block, polR
 		out = append(out, &Msg{ID: fmt.Sprintf("%d.%d", idx, node.seq), From: idx, Payload: &cs.BlockPartMessage{Height: h, Round: round, Part: parts.GetPart(i)}})
 	}
 	return out
+}
+
+// byzPartSize picks the part size of a Byzantine proposal so that the NUMBER of parts is a function of the schedule only.
+// The block carries the precommits of the last commit, whose timestamps are the wall clock of the correct signers
+// (cs.signVote: time.Now()), and the length of an encoded timestamp varies by a few bytes from run to run: with a fixed
+// part size a block near a multiple of it had 3 parts in one run and 4 in the next, the inbox lengths and with them the
+// seeded scheduler's draws differed, and a `sim` op replayed in a fresh process did not reproduce the generator's run
+// (C01 thorough, seed 1, case 214: a false alarm of the harness, DESIGN 10.4).  The number of parts is now 1 for a block
+// without commit signatures and 1 + (signed precommits)/2 otherwise (at most 5), whatever the byte length.
+func (n *Net) byzPartSize(block *types.Block) int {
+	if n.Cfg.PartSize != 512 {
+		return n.Cfg.PartSize
+	}
+	k := 1
+	if block.LastCommit != nil {
+		signed := 0
+		for _, pc := range block.LastCommit.Precommits {
+			if pc != nil {
+				signed++
+			}
+		}
+		if signed > 0 {
+			k = 1 + signed/2
+		}
+	}
+	if k > 5 {
+		k = 5
+	}
+	whole := block.MakePartSet(1 << 30)
+	l := len(whole.GetPart(0).Bytes)
+	if l < 4*k {
+		return n.Cfg.PartSize
+	}
+	return (l + k - 1) / k
 }
 
 // HonestBlock builds the block a correct proposer would build on top of `ref`'s chain at its current height,
